@@ -500,7 +500,7 @@ func (a *AMF) onRegistrationRequest(ran int64, nas []byte) [][]byte {
 		a.violate("registration/no-security-capability", "Registration Request without UE security capability")
 		return nil
 	}
-	u := &UE{Index: idx, Supi: supi, RanID: ran, AmfID: a.Ch.AmfUeIDBase + int64(len(a.ues))*a.Ch.AmfUeIDStep, State: stAuthSent, ulSeen: map[uint32]bool{},
+	u := &UE{Index: idx, Supi: supi, RanID: ran, AmfID: (a.Ch.AmfUeIDBase + int64(len(a.ues))*a.Ch.AmfUeIDStep) % (1 << 40), State: stAuthSent, ulSeen: map[uint32]bool{},
 		regRequest: append([]byte{}, nas...), ueSecCap: append([]byte{}, cap.Value...)}
 	k := len(a.ues)
 	u.UEIP = a.Ch.UEIP[k%len(a.Ch.UEIP)]
